@@ -1418,6 +1418,9 @@ class Lowerer:
             return '((float)%s)' % v
         return v
 
+    def e_StringLiteral(self, e):
+        return e.get('value', '""')
+
     def e_CXXBoolLiteralExpr(self, e):
         return '1' if e['value'] in (True, 'true') else '0'
 
@@ -2116,7 +2119,9 @@ class Lowerer:
         n = len(args)
         sig = r.get('type', {}).get('qualType', '')
         if name in ('__builtin_clz', '__builtin_clzll', '__builtin_ctz', '__builtin_popcount', '__builtin_clzl',
-                    '__builtin_inf', '__builtin_nan', '__builtin_fabs', '__builtin_huge_val'):
+                    '__builtin_inf', '__builtin_nan', '__builtin_fabs', '__builtin_huge_val', '__builtin_nanf', '__builtin_inff'):
+            if name in ('__builtin_nanf', '__builtin_nan'):
+                return '(%s)(0.0/0.0)' % ('float' if name.endswith('f') else 'double')
             return '%s(%s)' % (name, ', '.join(self.expr(a) for a in args))
         if name in ('malloc', 'free') and n == 1:
             return '%s(%s)' % (name, self.expr(args[0]))
